@@ -157,7 +157,9 @@ class SeqV:
         if self.items is not None and other.items is not None:
             return SeqV.concrete(self.items + other.items)
         n, a, b = self.length, self, other
-        return SeqV(n + other.length, lambda i: ite(i < n, a.get(i), b.get(i - n)))
+        if isinstance(n, int) and n == 0:
+            return other
+        return SeqV(lift(n) + lift(other.length), lambda i: ite(lift(i) < n, a.get(i), b.get(lift(i) - n)))
 
     def insert_at(self, p, v):
         n, old = self.length, self
@@ -1374,6 +1376,18 @@ class Engine:
 
     def e_List(self, node, st):
         out = []
+        if any(isinstance(e, ast.Starred) for e in node.elts):
+            # [a, b, *xs, c]: concatenation of concrete segments and unpacked sequences
+            exprs = [e.value if isinstance(e, ast.Starred) else e for e in node.elts]
+            for s, vals, e in self.eval_seq(exprs, st):
+                if e:
+                    out.append((s, None, e))
+                    continue
+                seq = SeqV.concrete([])
+                for el, v in zip(node.elts, vals):
+                    seq = seq.concat(self.as_seq(s, v)) if isinstance(el, ast.Starred) else seq.concat(SeqV.concrete([v]))
+                out.append((s, self.new_list(s, seq), None))
+            return out
         for s, vals, e in self.eval_seq(node.elts, st):
             out.append((s, None, e) if e else (s, self.new_list(s, SeqV.concrete(vals)), None))
         return out
@@ -1614,7 +1628,7 @@ class Engine:
     def binop(self, st, node, a, b):
         op = node.op
         if isinstance(op, ast.Add):
-            if isinstance(a, Ref) and isinstance(b, Ref):
+            if isinstance(a, Ref) and (isinstance(b, Ref) or (is_z3(b) and b.sort() == U)) and isinstance(st.heap[a.n], HList):
                 sa, sb = self.as_seq(st, a), self.as_seq(st, b)
                 return [(st, self.new_list(st, sa.concat(sb)), None)]
             if isinstance(a, tuple) and isinstance(b, tuple):
